@@ -54,13 +54,24 @@ def gen_tree_case(rng):
     fkind = 'unknown_cfg'
   fault = [rng.randint(0, count_positions(specs) - 1), fkind, False] if missing else None
   files, flat = {}, []
+  # with skip_unknown on, imports of modules that do not exist are dropped wherever they stand in the tree - and
+  # are not among the imports the call reports for that file
+  want_missing = (not missing) and rng.random() < 0.35
+  if want_missing:
+    def sprinkle(sp_list, depth=0):
+      for sp in list(sp_list):
+        if sp[0] == 'include':
+          sprinkle(sp[2], depth + 1)
+      if rng.random() < 0.6:
+        sp_list.insert(rng.randint(0, len(sp_list)), ('import_missing', rng.choice(S.MISSING_MODULES)))
+    sprinkle(specs)
   text, stmts, _ = render(rng, specs, regs, fault, files, flat)
   entry = rng.choice(['config', 'file', 'files_and_bindings'])
   regmods = collect_regmods(specs)
   ops = list(regs)
   # skip_unknown is about unknown configurables and imports, never about files: a missing include fails all the same
   pskip = {'k': 'no'}
-  if rng.random() < (0.6 if missing else 0.15):
+  if want_missing or rng.random() < (0.6 if missing else 0.15):
     pskip = rng.choice([{'k': 'all'}, {'k': 'names', 'v': ['zz.q'], '_type': rng.choice(['list', 'tuple', 'set'])}])
   if fkind == 'unknown_cfg':
     pskip = rng.choice([{'k': 'no'}, {'k': 'names', 'v': ['other.name', 'q'], '_type': rng.choice(['list', 'tuple', 'set'])}])
@@ -83,7 +94,7 @@ def gen_tree_case(rng):
         flat.append(('bind', '', reg0['_selector'], cls0[0], b2.stmts[0]['val']))
       lines = b2.text().rstrip('\n').split('\n')
     fin = rng.random() < 0.6
-    skip = pskip if (fault and fault[2]) else {'k': 'no'}
+    skip = pskip if ((fault and fault[2]) or want_missing) else {'k': 'no'}
     if rng.random() < 0.4 and not (fault and fault[2]):
       # skip_unknown must reach the extra bindings as well as the files
       skip = rng.choice([{'k': 'all'}, {'k': 'names', 'v': ['zz.q'], '_type': rng.choice(['list', 'tuple', 'set'])}])
